@@ -1350,6 +1350,17 @@ fn gen_canonical(rng: &mut Rng) -> TableauSource {
         let big = *rng.pick(&[100_000.0, 1_000_000.0, 2_000_000.0]);
         c[j] = if rng.chance(1, 2) { big } else { -big };
     }
+    else if rng.chance(1, 6) {
+        // large right-hand sides that differ by a unit or two: ratios of magnitude 1e5+
+        // whose differences are tiny relative to their size and plain in absolute terms
+        // (all exact in f64)
+        let k = *rng.pick(&[100_000.0, 200_000.0, 1_000_000.0, 5_000_000.0]);
+        for bi in b.iter_mut() {
+            if *bi != 0.0 || rng.chance(1, 2) {
+                *bi = k + rng.range(0, 3) as f64;
+            }
+        }
+    }
     TableauSource::Canonical {
         c,
         a,
@@ -1460,7 +1471,7 @@ pub const TABLEAU_LIMITS: GenLimits = GenLimits {
 };
 
 /// Weights over `generate::ALL_FAMILIES` for continuous models fed to the tableau.
-pub const TABLEAU_FAMILY_WEIGHTS: [u64; 16] = [0, 0, 0, 0, 0, 30, 10, 8, 0, 0, 0, 18, 24, 5, 5, 0];
+pub const TABLEAU_FAMILY_WEIGHTS: [u64; 17] = [0, 0, 0, 0, 0, 30, 10, 8, 0, 0, 0, 18, 24, 5, 5, 0, 0];
 
 pub fn gen_case(rng: &mut Rng, index: u64) -> (String, TableauCase) {
     let classics = classic_cases();
